@@ -180,7 +180,9 @@ func (fs *Filespace) Writer(destPath string) (writer filesystem.Writer, err erro
 		}
 		file.time = time.Now()
 	}
-	return NewFileHandler(file), nil
+	handler := NewFileHandler(file)
+	file.data = []byte{}
+	return handler, nil
 }
 
 // Reader return a file node reader
